@@ -1888,6 +1888,8 @@ func (vc *VC) rangeNext(fr *Frame, in *ssa.Next, pos token.Pos) {
 	vc.assume(fmt.Sprintf("(=> %s (and (select %s %s) (not (select %s %s))))", okc, dom, k, seen, k))
 	vc.emit("(assert (=> %s (=> (not %s) (forall ((q %s)) (=> (select %s q) (select %s q))))))", vc.reach, okc, ks, dom, seen)
 	vc.assume(vc.rangeFact(k, mt.Key()))
+	// a nil map has no entries to range over
+	vc.assume(fmt.Sprintf("(=> (= %s 0) (not %s))", it.T, okc))
 	v := fmt.Sprintf("(select (select %s %s) %s)", vc.get(vn, vs), it.T, k)
 	vv := &Val{T: vc.define("range_val", vc.sortOf(mt.Elem()), v), Ty: mt.Elem()}
 	vc.assume(vc.rangeFact(vv.T, vv.Ty))
